@@ -205,6 +205,31 @@ def glue_block(_b):
                 d4, f4, _k, _ = _document(_mk('point', **ch))
                 obs.append(static_ob(f"{b}/only_content.digest_argument_independent_of_{label}/point", d4 == dr and _same_digest_arg(fr, f4), '', backend='trace',
                                      replay={'kind': 'c05.pair', 'iso': 'point', 'change': ch, 'expect': 'same'}))
+            # the identifier has no memory: reading it, then changing the content (in-place conversion, or a new isotherm built
+            # from a modified copy of the data table) gives the digest argument of the content as it is now
+            import pandas
+            import pygaps
+            used = _mk('point')
+            used.iso_id
+            used.convert_pressure(unit_to='kPa')
+            fresh = _mk('point')
+            fresh.convert_pressure(unit_to='kPa')
+            du, fu, _k, _ = _document(used)
+            df_, ff, _k, _ = _document(fresh)
+            obs.append(static_ob(f"{b}/only_content.identifier_read_before_conversion_leaves_no_trace/point", du == df_ and _same_digest_arg(fu, ff), '', backend='trace',
+                                 replay={'kind': 'c05.history', 'case': 'read_then_convert'}))
+            src = _mk('point')
+            src.iso_id
+            table = src.data_raw.copy()
+            table['loading'] = table['loading'] * 2
+            meta = {k: v for k, v in src.to_dict().items()}
+            derived = pygaps.PointIsotherm(isotherm_data=table, pressure_key='pressure', loading_key='loading', **meta)
+            scratch_ = pygaps.PointIsotherm(isotherm_data=pandas.DataFrame({c: list(table[c]) for c in table.columns}), pressure_key='pressure', loading_key='loading', **meta)
+            dd, fd, _k, _ = _document(derived)
+            ds, fs, _k, _ = _document(scratch_)
+            d0, f0, _k, _ = _document(src)
+            obs.append(static_ob(f"{b}/only_content.isotherm_built_from_modified_copy_of_a_read_table/point", dd == ds and _same_digest_arg(fd, fs) and not _same_digest_arg(fd, f0), '',
+                                 backend='trace', replay={'kind': 'c05.history', 'case': 'derived_table'}))
             # pandas digests depend on the column type: every numeric (or boolean) column reaches the digest as float64
             for label, ch in (('as_stored', {}), ('integer_literals', {'ints': 'int'}), ('boolean_marks', {'branch_type': 'bool'})):
                 _d, fr_, _k, _ = _document(_mk('point', **ch))
